@@ -128,12 +128,25 @@ fn run_child_with(inst: &Value, deadline: Duration) -> (Vec<String>, bool) {
     });
     let mut lines = Vec::new();
     let mut hung = false;
+    let mut working: Option<Value> = None;
     loop {
         match rx.recv_timeout(deadline) {
-            Ok(l) => lines.push(l),
+            Ok(l) => {
+                if l.starts_with("{\"ev\":\"working\"") {
+                    working = serde_json::from_str::<Value>(&l).ok().map(|v| v["toks"].clone());
+                } else {
+                    working = None;
+                    lines.push(l)
+                }
+            }
             Err(std::sync::mpsc::RecvTimeoutError::Timeout) => {
                 let _ = child.kill();
-                lines.push(json!({"ev": "hang", "after_lines": lines.len()}).to_string());
+                // `input`: the token sequence of the parse that did not return, when it was a parse
+                lines.push(
+                    json!({"ev": "hang", "after_lines": lines.len(), "has_input": working.is_some(),
+                           "input": working.clone().unwrap_or(json!([]))})
+                    .to_string(),
+                );
                 hung = true;
                 break;
             }
@@ -1003,6 +1016,9 @@ fn instance<S: 'static + Debug + Hash + PrimInt + Unsigned + Send + Sync>(
         let budget_ms = inst["budget_ms"].as_u64().unwrap_or(4000);
         for toks in inputs {
             let (lx, src) = layout(&toks, &mut rng);
+            // tell the parent what is being worked on (not part of the trace): if this parse does
+            // not return, the `hang` event can name its input
+            lines.push(json!({"ev": "working", "toks": toks}).to_string());
             let mut obs = Vec::new();
             for rec in &recovery_modes {
                 let rec = *rec;
